@@ -21,7 +21,7 @@ def gen_cases(ctx):
         elif x < 0.2: cfg['filter'] = rnd.choice(['(< &index 4)', '(= (% &index 2) 0)'])
         elif x < 0.25: cfg['sort'] = ['(- 0 &index)'] + cfg['sort']
         if x < 0.25 and rnd.random() < 0.5:
-            cfg['only_objs'] = True; vals = [v for pair in zip(vals, [rnd.choice([1, 'x', None, -2, True]) for _ in vals]) for v in pair]
+            cfg['only_objs'] = True; vals = [v for pair in zip(vals, [rnd.choice([1, 'x', None, -2, True, 'C:\\', 'q"', 'a\\"b', '\\', '{not an object}', '[', '']) for _ in vals]) for v in pair]
         out.append((cfg, gen.stream(vals, rnd)))
     # selections absent in complementary columns, with --unique / sort / group on top
     COMP = [{'a': 1}, {'b': 1}, {'a': 1, 'b': 1}, {'a': 2}, {'b': 2}, {}, {'c': 1}, {'a': 1, 'c': 1}, {'a': None}]
